@@ -300,7 +300,7 @@ def run(res, tier):
         if not stateful:
             raise
         n5 = 4      # the lists are routed through the remembered state reported by C01.6
-    if tier == "thorough":
+    if tier in ("quick", "thorough"):      # the Specx / StarPU executors (declaration stubs) are analysed on every run: the unit tests never compile them, so nothing else would notice a change there
         for cfg in ("specx", "starpu"):
             f2 = tbf.scan(cfg)
             res.units.append("umbrella TU '%s' (declaration-only runtime stub)" % cfg)
